@@ -629,7 +629,10 @@ def exec_loop_unrolled(eng, n, st: State):
                         vals = [decode_elem(eng, s_len, sq.e[i], sq.elem) for i in range(ln)]
                         out.extend(_run_for_items(eng, n, s_len, vals))
                     continue
-                out.extend(_run_for_items(eng, n, s1, items))
+                if isinstance(it1, VRef) and s1.heap[it1.oid].kind in ("list", "dict", "cset"):
+                    out.extend(_run_for_live(eng, n, s1, it1))
+                else:
+                    out.extend(_run_for_items(eng, n, s1, items))
         return out
     # while: unroll while the guard is concretely decidable or path-feasible, up to a limit
     paths = [(st, None)]
@@ -687,6 +690,48 @@ def _run_for_items(eng, n, s1, items):
     return out
 
 
+def _run_for_live(eng, n, s1, ref):
+    """Python's iteration over a *live* container: a list iterator re-reads the list by index on every step (so a
+    body that removes elements skips some, one that appends sees the new ones); dict and set iterators raise
+    RuntimeError on the step after the size changed."""
+    out = []
+    kind = s1.heap[ref.oid].kind
+    snap = None if kind == "list" else eng.iter_concrete(ref, s1)
+    work = [(s1, None, 0)]
+    steps = 0
+    while work:
+        s2, o, i = work.pop()
+        steps += 1
+        if steps > 4096:
+            raise Unsupported("for loop over a live container did not terminate within 4096 steps")
+        if o is not None:
+            if not isinstance(o, Raised) and o[0] == "break":
+                out.append((s2, None))
+            else:
+                out.append((s2, o))
+            continue
+        cur = eng.iter_concrete(ref, s2)
+        if kind != "list" and len(cur) != len(snap):
+            out.append((s2, eng.raise_py(s2, RuntimeError, f"{'dictionary' if kind == 'dict' else 'Set'} changed size during iteration")))
+            continue
+        seq = cur if kind == "list" else snap
+        if i >= len(seq):
+            if n.orelse:
+                out.extend(eng.exec_block(n.orelse, s2))
+            else:
+                out.append((s2, None))
+            continue
+        for s3, r in eng.assign(n.target, seq[i], s2):
+            if isinstance(r, Raised):
+                out.append((s3, r))
+                continue
+            for s4, o4 in eng.exec_block(n.body, s3):
+                if o4 is not None and not isinstance(o4, Raised) and o4[0] == "continue":
+                    o4 = None
+                work.append((s4, o4, i + 1))
+    return out
+
+
 def exec_loop_invariant(eng, n, st: State, key, spec):
     """Hoare rule: assert inv on entry; havoc; assume inv & guard; body; assert inv & variant decreases.
 
@@ -698,6 +743,7 @@ def exec_loop_invariant(eng, n, st: State, key, spec):
     is_for = isinstance(n, (ast.For, ast.AsyncFor))
     idx = spec.get("index", "_i")
     seqv = None
+    live_checks = {}
     start_paths = [(st, None)]
     if is_for:
         start_paths = []
@@ -705,13 +751,18 @@ def exec_loop_invariant(eng, n, st: State, key, spec):
             if isinstance(it, Raised):
                 out.append((s, it))
                 continue
+            live = None
             if not isinstance(it, VSeq):
+                lk = eng.hooks.get("live_iter")
+                live = lk(eng, s, it) if lk is not None else None
                 hk = eng.hooks.get("iter_to_seq")
                 it = hk(eng, s, it) if hk is not None else None
             if not isinstance(it, VSeq):
                 raise Unsupported("invariant-based for loop needs a symbolic sequence iterable")
+            live_checks[id(it)] = live
             s.env.f[idx] = VInt(0)
             s.env.f["__seq_" + idx] = it
+            s.env.f["iterated_seq"] = it          # ghost name for invariants: the sequence this loop walks (no local's name needed)
             start_paths.append((s, it))
     for s, it in start_paths:
         seqv = it
@@ -795,6 +846,11 @@ def exec_loop_invariant(eng, n, st: State, key, spec):
                     # fell through or continue: back edge
                     if is_for:
                         s4.env.f[idx] = VInt(simp(as_int(s4.env.f[idx]) + 1))
+                        lv = live_checks.get(id(seqv))
+                        if lv is not None:
+                            # the loop is modelled as a walk over the contents at entry; Python instead raises
+                            # RuntimeError (or skips / repeats members) when the live container changed meanwhile
+                            oblige(eng, s4, lv(s4), f"{key}/iterated-container-unchanged", kind="property")
                     for s5 in run_hints(eng, s4, _parse_stmts(spec.get("end_hints"))):
                         for cl in invs:
                             g = eval_clause(eng, s5, cl.node)
